@@ -57,7 +57,7 @@ class Zipper(object):
             elif f.cancelled():
                 self.done = True
                 cancel = True
-            elif f.exception():
+            elif f.exception() is not None:
                 self.done = True
                 set_exception = True
             else:
